@@ -373,6 +373,15 @@ def check(pid, tier, verif_seed, runs=None, workers=None, cap_s=None, minimise_s
                 harness.append(f"minimiser failed for {sig}: {e!r}")
         isolation.reset()
         final = prop.run(case)
+        if final.signature != sig:
+            # the minimised case does not reproduce reliably (a change to valida
+            # with state the harness cannot reset): fall back to the case as found
+            isolation.reset()
+            final = prop.run(rep.case)
+            tests = -tests
+            if final.signature != sig:
+                harness.append(f"seed={seed}: {sig} reproduced once in the parent process but not a second time (state outside the harness's control)")
+                continue
         path = write_replay(
             pid,
             final.case,
